@@ -21,7 +21,7 @@ from .sample import Sampler, mutants, with_trivia
 from .tools import CACHE, WORK, repo_hash, seed as get_seed, log, pmap, fresh_dir, rmtree, build_bins, Inconclusive
 from . import buckets
 
-VERSION = 11   # bump to invalidate cached campaigns when the machinery changes
+VERSION = 12   # bump to invalidate cached campaigns when the machinery changes
 
 PURE = dict(p_user_pred=0.0, p_assert=0.0)
 SIZES = {
@@ -202,7 +202,7 @@ def make_jobs(units, rng, tier):
                 modes = modes[:2]
             small = not (kind.startswith("run") or kind == "exhaustive")
             for (mode, sd) in modes:
-                tags = [False, True] if getattr(u, "twin", True) else [False]
+                tags = [True, False] if getattr(u, "twin", True) else [False]     # probed twin first (see main_head.rs)
                 if small and not (ud and mode == "00"):
                     tags += [t for _, _, t in getattr(u, "variants", [])]
                 for tag in tags:
@@ -432,6 +432,9 @@ def evaluate_unit(u, base, inputs, res_by, by_gid, V, tier):
         key = f"{u.gid}|{ino}|{mode}{sd}"
         if isinstance(probed, str):
             continue      # code variants are only read by the C08 differential below
+        if rec.get("skipped"):
+            V.counts["C03"]["twin_runs_skipped_after_proven_non_termination"] += 1
+            continue
         # ---------------- C03: totality ---------------------------------------------------------
         if not probed:
             V.evals["C03"] += 1
@@ -474,7 +477,7 @@ def evaluate_unit(u, base, inputs, res_by, by_gid, V, tier):
         # ---------------- twin agreement ------------------------------------------------------------
         if probed is True:
             other = R.get((False, ino, mode, sd))
-            if other is not None and other.get("panic") is None and not other.get("error"):
+            if other is not None and other.get("panic") is None and not other.get("error") and not other.get("skipped"):
                 if other.get("tree") != rec.get("tree") or other.get("diags") != rec.get("diags") or other.get("ev") != rec.get("ev"):
                     V.inconclusive["C08"].append({"reason": "probed twin disagrees with pristine twin", "witness": wit()})
                     V.counts["C08"]["twin_disagreements"] += 1
@@ -585,7 +588,7 @@ def evaluate_unit(u, base, inputs, res_by, by_gid, V, tier):
                     bi = j
                     break
             other = R.get((False, bi, mode, sd)) if bi is not None else None
-            if other is not None and other.get("panic") is None and not other.get("error"):
+            if other is not None and other.get("panic") is None and not other.get("error") and not other.get("skipped"):
                 V.evals["C16"] += 1
                 interior = any(t in trivia for t in toks[1:-1])
                 if interior:
@@ -641,7 +644,7 @@ def evaluate_unit(u, base, inputs, res_by, by_gid, V, tier):
                     if k == 0:
                         continue
                     vr = R.get((f"v{si}_{k}", ino, mode, sd))
-                    if vr is None or vr.get("error"):
+                    if vr is None or vr.get("error") or vr.get("skipped"):
                         continue
                     V.counts["C08"]["differential_comparisons"] += 1
                     if vr.get("panic") is not None:
